@@ -241,6 +241,5 @@ Fixpoint spec_wtrace_total (g : ghost) (ops : list wop) : list (outcome wobs) :=
    the source translator (props/_c10_tables.py) lists them. *)
 Definition safe_ops : list bytes :=
   [ bs "len"; bs "range"; bs "tuple"; bs "set"; bs ".keys"; bs ".add"; bs ".append"; bs ".defaultdict";
-    bs "._add_dict"; bs "._remove_dead_reminders";
-    bs "assert@_add_dict" (* the three asserts of _add_dict precede its first store *) ].
+    bs "._add_dict"; bs "._remove_dead_reminders" ].
 Definition op_safe (fo : bytes * bytes) : bool := memk (snd fo) safe_ops.
